@@ -28,7 +28,7 @@ def jobs(tier):
 
 
 BOUNDS = {'quick': 'all labelled digraphs with self loops on <=3 files (chosen lazily), 5-10 input selections, every completion order',
-          'thorough': 'digraphs on 4 files with out-degree <=2'}
+          'thorough': 'all digraphs on 3 files; digraphs on 4 files with out-degree <=1 and two selections; duplicate dependency entries on 3 files with every file requested'}
 from . import project as _project
 BOUNDS = {k: v + _project.bounds_note('C05', k) for k, v in BOUNDS.items()}
 ASSUMPTIONS = ['as C02 / C03']
